@@ -506,7 +506,27 @@ def external(it, qual: str):
             from .loops import NativeCM
             return Builtin("nullcontext", lambda v=None: NativeCM(lambda: v, lambda exc: False))
     if mod == "functools":
-        if name in ("cached_property", "cache", "lru_cache", "wraps", "total_ordering"):
+        if name in ("cache", "lru_cache"):
+            # memoisation is observable (identity of the returned object): model it faithfully
+            def cache(f=None, **kw):
+                if f is None or not isinstance(f, (FuncVal, BoundMethod, Builtin)):
+                    return Builtin(name, lambda g: cache(g))
+                memo = it.ctx.ghost.setdefault(("functools.cache", id(f.node) if isinstance(f, FuncVal) else id(f)), {})
+
+                def call(*a, **k):
+                    key = (tuple(a), tuple(sorted(k.items())))
+                    try:
+                        hash(key)
+                    except TypeError:
+                        raise Unsupported("functools.cache with unhashable arguments")
+                    if any(is_symbolic(x) for x in a) or any(is_symbolic(x) for x in k.values()):
+                        raise Unsupported("functools.cache with symbolic arguments")
+                    if key not in memo:
+                        memo[key] = it.call(f, list(a), dict(k))
+                    return memo[key]
+                return Builtin(f"cached:{getattr(f, 'qualname', name)}", call)
+            return Builtin(name, cache)
+        if name in ("cached_property", "wraps", "total_ordering"):
             return Builtin(name, lambda f=None, **k: f)
         if name == "reduce":
             def reduce(f, xs, *init):
